@@ -248,3 +248,81 @@ def write_protected(*objs):
                 a.flags.writeable = True
             except ValueError:
                 pass
+
+
+# ---------------------------------------------------------------------------------------------------
+# step-budget watchdog (termination claims decided on logical steps, not wall-clock)
+# ---------------------------------------------------------------------------------------------------
+
+class StepBudgetExceeded(Exception):
+    pass
+
+
+class StepCounter:
+    """
+    Counts PY_START + JUMP + BRANCH events (function entries, loop back-edges, loop/branch decisions) inside the code
+    objects of one module, using sys.monitoring local events (no cost elsewhere). `budget` may be reset per call;
+    when exceeded, StepBudgetExceeded is raised inside the monitored code.
+    """
+    def __init__(self, module):
+        self.mon = sys.monitoring
+        self.tool = self.mon.DEBUGGER_ID
+        self.module = module
+        self.count = 0
+        self.budget = None
+        self.codes = []
+        self.active = False
+
+    def _collect(self):
+        seen = set()
+
+        def walk(code):
+            if id(code) in seen:
+                return
+            seen.add(id(code))
+            self.codes.append(code)
+            for c in code.co_consts:
+                if isinstance(c, types.CodeType):
+                    walk(c)
+        for val in vars(self.module).values():
+            f = getattr(val, '__pvm_orig__', val)
+            if isinstance(f, types.FunctionType) and f.__code__.co_filename == self.module.__file__:
+                walk(f.__code__)
+            elif isinstance(val, type) and getattr(val, '__module__', None) == self.module.__name__:
+                for av in vars(val).values():
+                    g = getattr(av, '__func__', av)
+                    g = getattr(g, '__pvm_orig__', g)
+                    if isinstance(g, types.FunctionType):
+                        walk(g.__code__)
+
+    def _cb(self, *args):
+        self.count += 1
+        if self.budget is not None and self.count > self.budget:
+            b = self.budget
+            self.budget = None
+            raise StepBudgetExceeded(f'more than {b} logical steps')
+
+    def __enter__(self):
+        self._collect()
+        ev = self.mon.events
+        self.mon.use_tool_id(self.tool, 'pvm-steps')
+        for e in (ev.PY_START, ev.JUMP, ev.BRANCH):
+            self.mon.register_callback(self.tool, e, self._cb)
+        for code in self.codes:
+            self.mon.set_local_events(self.tool, code, ev.PY_START | ev.JUMP | ev.BRANCH)
+        self.active = True
+        return self
+
+    def __exit__(self, *exc):
+        ev = self.mon.events
+        for code in self.codes:
+            self.mon.set_local_events(self.tool, code, 0)
+        for e in (ev.PY_START, ev.JUMP, ev.BRANCH):
+            self.mon.register_callback(self.tool, e, None)
+        self.mon.free_tool_id(self.tool)
+        self.active = False
+        return False
+
+    def start(self, budget):
+        self.count = 0
+        self.budget = budget
